@@ -405,6 +405,8 @@ def run(cx, tier='quick'):
     rep.counts['SCAN'] = k
     from .helpers import check_ident_or_index
     check_ident_or_index(cx, rep)
+    from .scope import check_scopes
+    check_scopes(cx, rep, ['::partial_eq::'])
     rep.floor('SUM-EQ', 2)
     rep.floor('SCAN', 8)
     rep.assumptions += ['semantics of `if c { return false }` chains, `match`/`if let`, ::core::cmp::PartialEq::ne == !eq for lawful impls',
